@@ -17,11 +17,13 @@ static GLOBAL: isolate::Counting = isolate::Counting;
 mod c01;
 mod c02;
 mod c03;
+mod c04;
 mod c05;
 mod c06;
 mod c07;
 mod c09x;
 mod c10;
+mod c12;
 mod c13;
 mod c14;
 mod c17;
@@ -41,12 +43,14 @@ fn checks() -> Vec<Check> {
         Check { id: "C01", level: "fault_enumeration", run: c01::run, replay: Some(c01::replay) },
         Check { id: "C02", level: "model_checking", run: c02::run, replay: Some(c02::replay) },
         Check { id: "C03", level: "model_checking", run: c03::run, replay: Some(c03::replay) },
+        Check { id: "C04", level: "model_checking", run: c04::run, replay: Some(c04::replay) },
         Check { id: "C05", level: "model_checking", run: c05::run, replay: Some(c05::replay) },
         Check { id: "C06", level: "model_checking", run: c06::run, replay: Some(c06::replay) },
         Check { id: "C07", level: "model_checking", run: c07::run07, replay: Some(c07::replay07) },
         Check { id: "C08", level: "model_checking", run: c07::run08, replay: Some(c07::replay08) },
         Check { id: "C09", level: "model_checking", run: c07::run09, replay: Some(c07::replay09) },
         Check { id: "C10", level: "model_checking", run: c10::run, replay: Some(c10::replay) },
+        Check { id: "C12", level: "model_checking", run: c12::run, replay: Some(c12::replay) },
         Check { id: "C13", level: "model_checking", run: c13::run, replay: Some(c13::replay) },
         Check { id: "C14", level: "model_checking", run: c14::run, replay: Some(c14::replay) },
         Check { id: "C17", level: "model_checking", run: c17::run, replay: Some(c17::replay) },
